@@ -550,6 +550,8 @@ def judge_renderer(case):
 
 
 def recheck(case):
+    if case.get("mode") == "padalg":
+        return [("C08/" + s, w) for s, w in judge_padalg(case)]
     if case.get("mode") == "giant":
         return [("C08/" + s, w) for s, w in judge_giant(case)]
     case = dict(case)
@@ -646,6 +648,54 @@ def judge_giant(case):
     return probs
 
 
+ALL_TSIG_ALGORITHMS = ["hmac-md5.sig-alg.reg.int.", "hmac-sha1.", "hmac-sha224.", "hmac-sha256.", "hmac-sha256-128.",
+                       "hmac-sha384.", "hmac-sha384-192.", "hmac-sha512.", "hmac-sha512-256."]
+
+
+def judge_padalg(case):
+    """Padding with a TSIG of every HMAC algorithm (the MAC sizes differ, the truncated
+    variants most of all): the first and every later rendering is a multiple of the block."""
+    spec = MESSAGES[case["msg"]]
+    probs = []
+    m = c03.build(spec)
+    m.use_edns(0, 0, 1232, pad=case["pad"])
+    key = dns.tsig.Key(c03.mkname(W.name_from_text(case["key"]), False), SECRET, case["alg"])
+    m.use_tsig(key)
+    origin = c03._ORIGIN_NAME if spec["origin"] else None
+    for nth in (1, 2):
+        try:
+            wire = m.to_wire(origin=origin, max_size=65535, want_shuffle=False)
+        except Exception as e:
+            probs.append(("padalg/render-crash/" + c03.crash_sig(e), "rendering %d: %s: %s" % (nth, type(e).__name__, e)))
+            break
+        if len(wire) % case["pad"]:
+            probs.append(("padalg/len-not-multiple/%s-rendering" % ("first" if nth == 1 else "later"),
+                          "rendering %d with %s: length %d is not a multiple of %d" % (nth, case["alg"], len(wire), case["pad"])))
+        try:
+            pm = W.parse(wire)
+            rrs = pm.rrs()
+            if not rrs or rrs[-1].rtype != W.TSIG:
+                probs.append(("padalg/tsig-missing", "no TSIG at the end"))
+        except W.WireError as e:
+            probs.append(("padalg/refparse/" + e.kind, str(e)))
+    return probs
+
+
+def work_padalg(task, col):
+    mi = task
+    for alg in ALL_TSIG_ALGORITHMS:
+        for pad in (16, 128, 468):
+            for key in ("key.", "key.example."):
+                case = {"mode": "padalg", "msg": mi, "alg": alg, "pad": pad, "key": key}
+                probs = judge_padalg(case)
+                col.count("evaluations")
+                col.count("padalg_cases")
+                col.nontrivial(("padalg", mi, alg, pad, key))
+                col.outcome("padalg:" + (probs[0][0] if probs else "ok"))
+                for s_, w_ in probs:
+                    col.violation("C08/" + s_, w_ + " [message %d, key %s, pad %d]" % (mi, key, pad), case)
+
+
 def work_giant(task, col):
     lo, hi = task
     for target in range(lo, hi):
@@ -716,6 +766,8 @@ def run(ctx):
         "tsig_keys": {mi: tsig_keys(MESSAGES[mi])[1:] for mi in msgs},
         "edns": ["none", "plain", "cookie"], "tasks": len(tasks),
     })
+    tasks += [(work_padalg, mi) for mi in range(0, len(MESSAGES), ctx.pick(4, 1))]
+    ctx.extra["padding_tsig_algorithms"] = ALL_TSIG_ALGORITHMS
     glo, ghi = ctx.pick((0x3FFA, 0x4004), (0x3FE8, 0x4018))
     tasks += [(work_giant, (t, t + 1)) for t in range(glo, ghi)]
     ctx.extra["giant_message_offsets"] = [hex(glo), hex(ghi - 1)]
